@@ -566,6 +566,31 @@ func ruleTreeDelegation(c *Ctx, r *R) {
 						}
 					}
 				})
+				if !good {
+					// ... or what that amounts to, spelled out: a cursor positioned with SeekFirst and handed out as the plain
+					// Forward iterator (no bound predicate, no other seek)
+					first, fwd, other := 0, 0, 0
+					for _, d := range deepInstrs(fn, 2) {
+						call, ok := d.in.(*ssa.Call)
+						if !ok {
+							continue
+						}
+						cal := staticCallee(&call.Call)
+						if cal == nil {
+							continue
+						}
+						isCur := cal.Signature.Recv() != nil && isNamedTypeDeep(cal.Signature.Recv().Type(), treeRel, "cursor")
+						switch {
+						case isCur && fname(cal) == "SeekFirst":
+							first++
+						case isCur && fname(cal) == "Forward":
+							fwd++
+						case isCur && strings.HasPrefix(fname(cal), "Seek"), fname(cal) == "Backward", strings.HasPrefix(fname(cal), "While"):
+							other++
+						}
+					}
+					good = first == 1 && fwd == 1 && other == 0
+				}
 				r.ok(good, key, fn.Pos(), "Iterate must be Range(Unbounded, Unbounded)")
 				continue
 			}
